@@ -24,7 +24,7 @@ def gen_case(sd, idx, with_python):
     kind = r.choice(["grid", "graph"])
     one_cell = r.random() < 0.15
     opts = {"space": kind, "explicit_chstt": 0.3,
-            "net": {"chstt": 0.15, "nreactions": (0, 3)},
+            "net": {"no_growth": False, "chstt": 0.15, "nreactions": (0, 3)},
             "grid": {"dims": (1, 1) if one_cell else (1, 4), "max_cells": 24 if not with_python else 8},
             "graph": {"nodes": (1, 1) if one_cell else (1, 7 if not with_python else 5), "simple": True}}
     desc = gen.rand_system(r, opts)
